@@ -23,7 +23,7 @@ LEVEL_TEXT = (
     "around the noise/clean boundary x reader configurations. The loss allowance is exactly the property's (first message; without "
     "stuffing 2047 octets plus one frame length, flag-free frames only). Sampling, not proof."
 )
-RUNS = {"quick": 16000, "thorough": 500000}
+RUNS = {"quick": 24000, "thorough": 500000}
 CHUNK = {"quick": 200, "thorough": 1000}
 BUDGET_S = {"quick": 90, "thorough": 1500}
 RULE = (
